@@ -434,14 +434,22 @@ struct Script {
     gate: Option<Arc<AtomicBool>>,
 }
 
-struct Server {
-    port: u16,
-    log: Arc<Mutex<Vec<String>>>,
-    stop: Arc<AtomicBool>,
-    thread: Option<std::thread::JoinHandle<()>>,
+struct Shared {
+    scripts: Mutex<BTreeMap<String, Arc<Script>>>,
+    log: Mutex<Vec<String>>,
 }
 
-fn serve_one(mut s: TcpStream, scripts: &BTreeMap<String, Script>, log: &Mutex<Vec<String>>) {
+/// One server per worker thread, alive for the whole run (a listener per case would exhaust the
+/// ephemeral ports: closed connections linger in TIME_WAIT). Runs register their scripts under
+/// unique path prefixes `r<rid>s<i>` / `r<rid>t<t>s0`.
+struct Server {
+    port: u16,
+    shared: Arc<Shared>,
+    stop: Arc<AtomicBool>,
+    thread: Mutex<Option<std::thread::JoinHandle<()>>>,
+}
+
+fn serve_one(mut s: TcpStream, shared: &Shared) {
     let _ = s.set_nodelay(true);
     let _ = s.set_read_timeout(Some(Duration::from_secs(20)));
     let _ = s.set_write_timeout(Some(Duration::from_secs(20)));
@@ -458,9 +466,10 @@ fn serve_one(mut s: TcpStream, scripts: &BTreeMap<String, Script>, log: &Mutex<V
     }
     let text = String::from_utf8_lossy(&head).to_string();
     let target = text.split(' ').nth(1).unwrap_or("").to_string();
-    log.lock().unwrap().push(target.clone());
+    shared.log.lock().unwrap().push(target.clone());
     let prefix = target.trim_start_matches('/').split('/').next().unwrap_or("").to_string();
-    let Some(sc) = scripts.get(&prefix) else {
+    let sc = shared.scripts.lock().unwrap().get(&prefix).cloned();
+    let Some(sc) = sc else {
         let _ = s.write_all(b"HTTP/1.1 404 Not Found\r\nConnection: close\r\nContent-Length: 0\r\n\r\n");
         return;
     };
@@ -509,48 +518,87 @@ fn serve_one(mut s: TcpStream, scripts: &BTreeMap<String, Script>, log: &Mutex<V
 }
 
 impl Server {
-    fn start(scripts: BTreeMap<String, Script>) -> Server {
-        let listener = TcpListener::bind("127.0.0.1:0").expect("bind loopback");
+    fn start() -> Server {
+        let mut tries = 0;
+        let listener = loop {
+            match TcpListener::bind("127.0.0.1:0") {
+                Ok(l) => break l,
+                Err(e) => {
+                    tries += 1;
+                    if tries > 200 {
+                        panic!("bind loopback: {e:?}");
+                    }
+                    std::thread::sleep(Duration::from_millis(100));
+                }
+            }
+        };
         let port = listener.local_addr().unwrap().port();
-        let log = Arc::new(Mutex::new(vec![]));
+        let shared = Arc::new(Shared { scripts: Mutex::new(BTreeMap::new()), log: Mutex::new(vec![]) });
         let stop = Arc::new(AtomicBool::new(false));
-        let scripts = Arc::new(scripts);
-        let (log2, stop2) = (log.clone(), stop.clone());
+        let (shared2, stop2) = (shared.clone(), stop.clone());
         let thread = std::thread::spawn(move || {
             for conn in listener.incoming() {
                 if stop2.load(Ordering::SeqCst) {
                     break;
                 }
                 if let Ok(s) = conn {
-                    let scripts = scripts.clone();
-                    let log = log2.clone();
-                    std::thread::spawn(move || serve_one(s, &scripts, &log));
+                    let shared = shared2.clone();
+                    std::thread::spawn(move || serve_one(s, &shared));
                 }
             }
         });
-        Server { port, log, stop, thread: Some(thread) }
+        Server { port, shared, stop, thread: Mutex::new(Some(thread)) }
     }
-    fn log(&self) -> Vec<String> {
-        self.log.lock().unwrap().clone()
+    /// request targets seen for run `rid`, with the run prefix removed (`/s0/…`, `/t1s0/…`)
+    fn log_of(&self, rid: u64) -> Vec<String> {
+        let pre = format!("/r{rid}");
+        self.shared
+            .log
+            .lock()
+            .unwrap()
+            .iter()
+            .filter_map(|t| t.strip_prefix(&pre).filter(|rest| rest.starts_with('s') || rest.starts_with('t')).map(|rest| format!("/{rest}")))
+            .collect()
+    }
+    fn forget(&self, rid: u64) {
+        let pre = format!("r{rid}");
+        let is_mine = |k: &str| k.strip_prefix(&pre).map(|r| r.starts_with('s') || r.starts_with('t')).unwrap_or(false);
+        self.shared.scripts.lock().unwrap().retain(|k, _| !is_mine(k));
+        self.shared.log.lock().unwrap().retain(|t| !is_mine(t.trim_start_matches('/')));
     }
 }
 impl Drop for Server {
     fn drop(&mut self) {
         self.stop.store(true, Ordering::SeqCst);
         let _ = TcpStream::connect(("127.0.0.1", self.port));
-        if let Some(t) = self.thread.take() {
+        if let Some(t) = self.thread.lock().unwrap().take() {
             let _ = t.join();
         }
     }
 }
 
+thread_local! {
+    static SERVER: std::cell::RefCell<Option<Arc<Server>>> = const { std::cell::RefCell::new(None) };
+}
+fn worker_server() -> Arc<Server> {
+    SERVER.with(|s| s.borrow_mut().get_or_insert_with(|| Arc::new(Server::start())).clone())
+}
+
 // ------------------------------------------------------------------------------------------ file system
+
+/// where a run's URLs point: the worker's server port and the run id (`http://127.0.0.1:<port>/r<rid>s<i>/…`);
+/// canonical form `http://HOST/s<i>/…`
+#[derive(Clone, Copy, Default)]
+struct Origin {
+    port: u16,
+    rid: u64,
+}
 
 /// (relative path → description) of every non-directory below `root`. Directories are not entries:
 /// `create_cache_file` makes `<cache>/<debug file>/<id>/` before the download starts and nobody
 /// removes it when the download fails (noted in notes/C16.md; an empty directory serves nothing).
-fn tree(root: &Path, port: u16) -> BTreeMap<String, String> {
-    fn walk(dir: &Path, rel: &str, port: u16, out: &mut BTreeMap<String, String>) {
+fn tree(root: &Path, port: Origin) -> BTreeMap<String, String> {
+    fn walk(dir: &Path, rel: &str, port: Origin, out: &mut BTreeMap<String, String>) {
         let Ok(rd) = std::fs::read_dir(dir) else { return };
         for e in rd.filter_map(|e| e.ok()) {
             let name = e.file_name().to_string_lossy().to_string();
@@ -575,13 +623,13 @@ fn tree(root: &Path, port: u16) -> BTreeMap<String, String> {
     out
 }
 
-fn canon(bytes: &[u8], port: u16) -> Vec<u8> {
-    let needle = format!("127.0.0.1:{port}").into_bytes();
+fn canon(bytes: &[u8], port: Origin) -> Vec<u8> {
+    let needle = format!("127.0.0.1:{}/r{}", port.port, port.rid).into_bytes();
     let mut out = Vec::with_capacity(bytes.len());
     let mut i = 0;
     while i < bytes.len() {
         if bytes[i..].starts_with(&needle) {
-            out.extend_from_slice(b"HOST");
+            out.extend_from_slice(b"HOST/");
             i += needle.len();
         } else {
             out.push(bytes[i]);
@@ -590,11 +638,11 @@ fn canon(bytes: &[u8], port: u16) -> Vec<u8> {
     }
     out
 }
-fn canon_str(s: &str, port: u16) -> String {
+fn canon_str(s: &str, port: Origin) -> String {
     String::from_utf8_lossy(&canon(s.as_bytes(), port)).to_string()
 }
 
-fn node_at(p: &Path, port: u16) -> String {
+fn node_at(p: &Path, port: Origin) -> String {
     match std::fs::symlink_metadata(p) {
         Err(_) => "none".into(),
         Ok(md) => {
@@ -746,7 +794,7 @@ fn setup_dirs(c: &Case, m: &Mod) -> Dirs {
 
 // ------------------------------------------------------------------------------------------ one run
 
-fn class_of(r: &Result<breakpad_symbols::LocateSymbolsResult, SymbolError>, port: u16) -> String {
+fn class_of(r: &Result<breakpad_symbols::LocateSymbolsResult, SymbolError>, port: Origin) -> String {
     match r {
         Ok(l) => format!("ok:{}", l.symbols.url.as_deref().map(|u| canon_str(u, port)).unwrap_or("-".into())),
         Err(SymbolError::NotFound) => "notfound".into(),
@@ -773,7 +821,7 @@ struct RunObs {
     node: String,
     second: String,
     second_table: Option<SymbolFile>,
-    port: u16,
+    port: Origin,
     /// violations seen while the future was in flight: (class, detail)
     midflight: Vec<(String, String)>,
     /// real request URLs (with the real port) per (task, server)
@@ -835,12 +883,13 @@ fn check_midflight(obs: &mut RunObs, d: &Dirs, prep: &Prepared, at: &str) {
 fn run_once(c: &Case, m: &Mod, prep: &Prepared, drop_at: Option<usize>) -> RunObs {
     let d = setup_dirs(c, m);
     let gate = Arc::new(AtomicBool::new(false));
-    let mut scripts = BTreeMap::new();
+    let server = worker_server();
+    let rid = COUNTER.fetch_add(1, Ordering::Relaxed);
     for (i, r) in c.resps.iter().enumerate() {
-        let prefix = if c.race { format!("t{i}s0") } else { format!("s{i}") };
-        scripts.insert(
+        let prefix = if c.race { format!("r{rid}t{i}s0") } else { format!("r{rid}s{i}") };
+        server.shared.scripts.lock().unwrap().insert(
             prefix,
-            Script {
+            Arc::new(Script {
                 status: r.status,
                 framing: r.framing,
                 full_len: prep.bodies[i].len(),
@@ -848,19 +897,18 @@ fn run_once(c: &Case, m: &Mod, prep: &Prepared, drop_at: Option<usize>) -> RunOb
                 pace_us: r.pace_us,
                 pieces: prep.pieces[i].clone(),
                 gate: if c.race && i == 1 { Some(gate.clone()) } else { None },
-            },
+            }),
         );
     }
-    let server = Server::start(scripts);
-    let port = server.port;
+    let port = Origin { port: server.port, rid };
     let mut obs = RunObs { port, bodies: prep.bodies.clone(), ..Default::default() };
     obs.before = tree(&d.cache, port);
     let ntasks = if c.race { 2 } else { 1 };
     let urls_of = |t: usize| -> Vec<String> {
         if c.race {
-            vec![format!("http://127.0.0.1:{port}/t{t}s0/")]
+            vec![format!("http://127.0.0.1:{}/r{rid}t{t}s0/", server.port)]
         } else {
-            (0..c.resps.len()).map(|i| format!("http://127.0.0.1:{port}/s{i}")).collect()
+            (0..c.resps.len()).map(|i| format!("http://127.0.0.1:{}/r{rid}s{i}", server.port)).collect()
         }
     };
     let local_paths = if c.pre == "local" { vec![d.local.clone()] } else { vec![] };
@@ -955,7 +1003,7 @@ fn run_once(c: &Case, m: &Mod, prep: &Prepared, drop_at: Option<usize>) -> RunOb
                     if r.is_some() {
                         return r;
                     }
-                    if server.log().iter().any(|t| t.starts_with("/t1s0/")) || t0.elapsed() > Duration::from_secs(20) {
+                    if server.log_of(rid).iter().any(|t| t.starts_with("/t1s0/")) || t0.elapsed() > Duration::from_secs(20) {
                         return None;
                     }
                     tokio::time::sleep(Duration::from_micros(200)).await;
@@ -988,7 +1036,7 @@ fn run_once(c: &Case, m: &Mod, prep: &Prepared, drop_at: Option<usize>) -> RunOb
     obs.after_cache = tree(&d.cache, port);
     obs.after_tmp = tree(&d.tmp, port);
     obs.node = if c.fs == "cachefile" || c.fs == "subfile" { "none".into() } else { node_at(&d.cache.join(rels(m, &c.file).0), port) };
-    obs.raw_log = server.log();
+    obs.raw_log = server.log_of(rid);
     obs.reqs = vec![vec![]; ntasks];
     for t in &obs.raw_log {
         let seg = t.trim_start_matches('/').split('/').next().unwrap_or("");
@@ -1033,7 +1081,7 @@ fn run_once(c: &Case, m: &Mod, prep: &Prepared, drop_at: Option<usize>) -> RunOb
             obs.midflight.push(("panic".into(), format!("second lookup: {msg}")));
         }
     }
-    drop(server);
+    server.forget(rid);
     drop(d);
     obs
 }
@@ -1328,7 +1376,7 @@ impl Engine for Cache {
         };
         // 1. single server, every response kind, run to completion and dropped at every poll boundary
         let kinds = ["ok", "ok", "status", "corrupt", "unterminated", "empty", "cut", "cut"];
-        let rounds = if quick { 24 } else { 160 };
+        let rounds = if quick { 60 } else { 800 };
         for round in 0..rounds {
             for kind in kinds {
                 let r = resp_gen(rng, kind, false);
@@ -1337,7 +1385,7 @@ impl Engine for Cache {
             }
         }
         // 2. cut exactly on line boundaries and one byte around them, all three framings
-        for _ in 0..(if quick { 30 } else { 240 }) {
+        for _ in 0..(if quick { 80 } else { 1000 }) {
             let mut r = resp_gen(rng, "ok", false);
             let m = rng.below(3);
             if let Some(b) = body_bytes(&r.body, &MODULES[m as usize]) {
@@ -1359,7 +1407,7 @@ impl Engine for Cache {
             }
         }
         // 3. two or three servers: the cascade (only a success stops it)
-        for _ in 0..(if quick { 100 } else { 800 }) {
+        for _ in 0..(if quick { 300 } else { 3000 }) {
             let n = rng.range(2, 3);
             let mut resps = vec![];
             for i in 0..n {
@@ -1373,7 +1421,7 @@ impl Engine for Cache {
         let fss = ["tmpmissing", "cachefile", "subfile", "rotmp", "rocache", "roleaf"];
         for pre in pres {
             for kind in ["ok", "status", "corrupt", "cut"] {
-                let reps = if quick { 3 } else { 16 };
+                let reps = if quick { 3 } else { 40 };
                 for _ in 0..reps {
                     let r = resp_gen(rng, kind, false);
                     emit(mk(rng.below(3), pre, "-", vec![r], if rng.chance(1, 2) { "all" } else { "-" }, false));
@@ -1382,7 +1430,7 @@ impl Engine for Cache {
         }
         for fs in fss {
             for kind in ["ok", "ok", "status", "corrupt", "cut"] {
-                let reps = if quick { 2 } else { 10 };
+                let reps = if quick { 2 } else { 30 };
                 for _ in 0..reps {
                     let r = resp_gen(rng, kind, false);
                     let pre = if fs == "tmpmissing" || fs.starts_with("ro") { *rng.pick(&["-", "-", "dir", "special", "valid"]) } else { "-" };
@@ -1394,7 +1442,7 @@ impl Engine for Cache {
         emit(mk(0, "-", "-", vec![], "all", false));
         emit(mk(1, "valid", "-", vec![], "all", false));
         // 6. two racing calls
-        for _ in 0..(if quick { 40 } else { 300 }) {
+        for _ in 0..(if quick { 120 } else { 1000 }) {
             let ka = *rng.pick(&["ok", "ok", "ok", "corrupt", "status"]);
             let kb = *rng.pick(&["ok", "ok", "ok", "corrupt", "cut"]);
             let a = resp_gen(rng, ka, false);
@@ -1410,7 +1458,7 @@ impl Engine for Cache {
             emit(mk(rng.below(3), "-", "-", vec![r], "-", false));
         }
         // 6c. the opaque download path (binaries / pdb through locate_file → fetch_lookup): oracle only
-        for _ in 0..(if quick { 40 } else { 300 }) {
+        for _ in 0..(if quick { 120 } else { 1200 }) {
             let n = rng.range(1, 2);
             let mut resps = vec![];
             for _ in 0..n {
@@ -1431,7 +1479,7 @@ impl Engine for Cache {
             emit(show_case(&c));
         }
         // 7. bodies larger than the parser's initial 10 KiB window
-        for _ in 0..(if quick { 6 } else { 40 }) {
+        for _ in 0..(if quick { 6 } else { 120 }) {
             let kind = *rng.pick(&["ok", "ok", "corrupt", "cut"]);
             let mut r = resp_gen(rng, kind, true);
             if kind == "cut" {
@@ -1453,6 +1501,25 @@ impl Engine for Cache {
     }
 
     fn exec(&self, case: &str) -> ImplResult {
+        // a failure of the engine's own plumbing (socket, scratch directory …) must not take the run down silently
+        match catch(|| self.exec_inner(case)) {
+            Ok(r) => r,
+            Err(msg) => {
+                let mut res = ImplResult::default();
+                res.out = "ENGINE-ERROR".into();
+                res.oracle.push(("engine-internal-error".into(), msg));
+                res
+            }
+        }
+    }
+
+    fn shrink(&self, case: &str, still_fails: &dyn Fn(&str) -> bool) -> String {
+        self.shrink_inner(case, still_fails)
+    }
+}
+
+impl Cache {
+    fn exec_inner(&self, case: &str) -> ImplResult {
         let mut res = ImplResult::default();
         let Some(c) = parse_case(case) else {
             res.out = "bad-op".into();
@@ -1551,7 +1618,7 @@ impl Engine for Cache {
         res
     }
 
-    fn shrink(&self, case: &str, still_fails: &dyn Fn(&str) -> bool) -> String {
+    fn shrink_inner(&self, case: &str, still_fails: &dyn Fn(&str) -> bool) -> String {
         let Some(mut best) = parse_case(case) else { return case.to_string() };
         let try_ = |cand: &Case, best: &mut Case| -> bool {
             let line = show_case(cand);
